@@ -11,6 +11,7 @@ import (
 	"crypto/tls"
 	"fmt"
 	"io"
+	"net"
 	"net/http"
 	"net/http/httptest"
 	"sync"
@@ -86,7 +87,11 @@ func init() {
 		in.called, in.pid, in.seenHdr = false, "", ""
 		in.allowed = map[string]bool{}
 		if tr.FnOK {
+			// the operator lists the name with and without the port
 			in.allowed[host] = true
+			if h, _, err := net.SplitHostPort(host); err == nil {
+				in.allowed[h] = true
+			}
 		}
 		if t, ok := in.client.Transport.(*http.Transport); ok && tr.HasTLS {
 			t.TLSClientConfig.ServerName = sni
